@@ -738,7 +738,7 @@ namespace occa {
         return false;
       }
       const dtype_t &dtype1 = fieldTypes.find(name1)->second;
-      const dtype_t &dtype2 = fieldTypes.find(name2)->second;
+      const dtype_t &dtype2 = other.fieldTypes.find(name2)->second;
       if (!dtype1.matches(dtype2)) {
         return false;
       }
@@ -975,7 +975,7 @@ namespace occa {
         return false;
       }
       const dtype_t &dtype1 = fieldTypes.find(name1)->second;
-      const dtype_t &dtype2 = fieldTypes.find(name2)->second;
+      const dtype_t &dtype2 = other.fieldTypes.find(name2)->second;
       if (!dtype1.matches(dtype2)) {
         return false;
       }
